@@ -608,6 +608,19 @@ def _first_ifexp(st: ast.AST) -> Optional[ast.IfExp]:
     return None
 
 
+def _first_dict_dispatch(st: ast.AST) -> Optional[ast.Subscript]:
+    todo = [st]
+    while todo:
+        n = todo.pop(0)
+        if isinstance(n, ast.Subscript) and isinstance(n.ctx, ast.Load) and isinstance(n.value, ast.Dict) and 0 < len(n.value.keys) <= 8 \
+                and all(k is not None for k in n.value.keys) and not isinstance(n.slice, ast.Slice):
+            return n
+        if isinstance(n, (ast.Lambda, ast.ListComp, ast.SetComp, ast.DictComp, ast.GeneratorExp)):
+            continue
+        todo += list(ast.iter_child_nodes(n))
+    return None
+
+
 def _replace_node(root: ast.AST, old: ast.AST, new: ast.AST) -> None:
     for node in ast.walk(root):
         for f, v in ast.iter_fields(node):
@@ -690,6 +703,29 @@ def spaths(body_or_fn, limit: int = 4000) -> List[SPath]:
         return acc
 
     def simple(st, p: SPath, depth: int = 0) -> List[SPath]:
+        dd = _first_dict_dispatch(st) if depth < 4 else None
+        if dd is not None:
+            # `{K1: V1, K2: V2}[key]` is the decision `V1 if key == K1 else V2 if key == K2 else <KeyError>`
+            out = []
+            q0: Optional[SPath] = p
+            keys = list(zip(dd.value.keys, dd.value.values))
+            for i, (k, v) in enumerate(keys):
+                if q0 is None:
+                    break
+                test = ast.Compare(left=dd.slice, ops=[ast.Eq()], comparators=[k])
+                q = fork(q0, test, True)
+                if q is not None:
+                    st2 = clone(st)
+                    dd2 = _first_dict_dispatch(st2)
+                    if st2 is not dd2:
+                        _replace_node(st2, dd2, dd2.value.values[i])
+                        out += simple(st2, q, depth + 1)
+                q0 = fork(q0, test, False)
+            if q0 is not None:
+                r = ast.copy_location(ast.Raise(exc=ast.Call(func=ast.Name(id="KeyError", ctx=ast.Load()), args=[clone(dd.slice)], keywords=[]), cause=None), st)
+                ast.fix_missing_locations(r)
+                out.append(SPath(q0.conds, q0.stmts + [st], "raise", q0.env, q0.sstmts + [_sub(r, q0.env)]))
+            return out
         ie = _first_ifexp(st) if depth < 4 else None
         if ie is not None:
             out = []
